@@ -20,6 +20,7 @@ RULE = (
     "non-trivial = model has >=1 control or >=2 states."
     "One ui.Model object (and one set of noise / sensor dictionaries) is also compiled four times with different calibration maps and CSE settings; every compiled object is checked against ITS calibration right after compiling and again after all were compiled."
     " A third filter object per program sees the grid in another order, degenerate points (all-zero input, dt = 0, single zeros) first."
+    " Definitions with a declared but unused control / calibration value sorting before the used ones."
 )
 ASSUMPTIONS = [
     "covariances symmetric positive definite with condition number <= 1e4 (property's stated domain)",
